@@ -188,7 +188,10 @@ def run_frame(case, ctx):
     # scalar principal_radii
     s = ctx.sut(earth.principal_radii, float(lat[0]), float(alt[0]))
     v = ctx.sut(earth.principal_radii, lat, alt)
-    ctx.check(all(abs(float(a) - b[0]) <= 4 * ulp(b[0]) for a, b in zip(s, v)), 'form_scalar_radii', 'scalar vs stacked')
+    # numpy's scalar and vectorised sin may differ in the last ulp; rp = (re+h) sqrt(1 - sin^2) amplifies that by 1/cos^2
+    allow = [0.0, 0.0, 6.4e6 * float(cos_rounding(lat[0]))]
+    ctx.check(all(abs(float(a) - b[0]) <= 4 * ulp(b[0]) + al for a, b, al in zip(s, v, allow)), 'form_scalar_radii',
+              lambda: f'scalar {[float(a) for a in s]} vs stacked {[b[0] for b in v]}')
     ctx.mark_nontrivial(_nontrivial(case))
 
 
